@@ -21,6 +21,7 @@ import Proofs.JsonBytes
 import Proofs.JsonBytesFilter
 import Proofs.JsonBytesLocal
 import Proofs.JsonBytesParseA
+import Proofs.JsonBytesErr
 import Gen.Facts
 
 namespace Props.C17
@@ -82,7 +83,7 @@ example : tN.wf = true ∧
 /-- UPPER BOUND only (audit C17-M1): whenever filtering does not fail fatally, every member of the
 result stems from a member of the input with that key, up to integral floats rewritten as `int64`
 literals (`Drops` is type-agnostic: it does not say which members are kept – emptying every object
-would satisfy it).  The exact statement is `filter_exactly_drops` below.
+would satisfy it).  The exact statement is `filter_exactly_drops_partial` below.
 `_partial` (audit C17-M2): for fatal results the statement is false – a missing declared member is
 written as `null` (`filter_fatal_adds_null`). -/
 theorem filter_only_drops_partial (t : Ty) (v : J) (h : (filter t v).2 ≠ .fatal) :
@@ -92,7 +93,9 @@ theorem filter_only_drops_partial (t : Ty) (v : J) (h : (filter t v).2 ≠ .fata
 /-- non-vacuity: a soft (non-fatal) filtering that drops a member and rewrites `1.0` -/
 example : (filter tA (.obj [(kx, .null), (ka, .num (.flt 10 (-1)))])).2 = .soft := by decide
 
-/-- EXACTLY WHAT IS DROPPED (audit C17-M1): a non-fatal result of filtering `v` to `t` is `v` with
+/-- `_partial`: restricted to a non-fatal result (a fatal one has `null` written for a missing member:
+`filter_fatal_adds_null` – the statement without the hypothesis is false).
+EXACTLY WHAT IS DROPPED (audit C17-M1): a non-fatal result of filtering `v` to `t` is `v` with
 nothing changed where the type cannot filter; at `int` an `int64` literal kept and any other numeral
 rewritten only to the integer its value is (within `int64`); arrays of the same length and typed
 maps with the same keys in the same order, members filtered pointwise at the element type; and a
@@ -101,7 +104,7 @@ wins) and filtered at the member's type (copied where that type cannot filter). 
 ever removed is an undeclared struct member (`DropsT`, Martian/Types.lean: a typed relation; a filter
 that empties objects, duplicates members, keeps a shadowed duplicate or rewrites a float-typed number
 does NOT satisfy it). -/
-theorem filter_exactly_drops (t : Ty) (v : J) (h : (filter t v).2 ≠ .fatal) :
+theorem filter_exactly_drops_partial (t : Ty) (v : J) (h : (filter t v).2 ≠ .fatal) :
     DropsT exactRewrite t (filter t v).1 v :=
   Martian.Types.filter_dropsT t v h
 
@@ -468,9 +471,10 @@ theorem filter_only_drops_round_partial (t : Ty) (v : J) (h : (Martian.TypesR.fi
     Martian.TypesR.Drops (Martian.TypesR.filter t v).1 v :=
   Martian.TypesR.filter_drops t v h
 
-/-- EXACTLY what is dropped, rounded numerals: as `filter_exactly_drops`, the `int` rewrite being the
+/-- `_partial` (non-fatal results only, as `filter_exactly_drops_partial`).
+EXACTLY what is dropped, rounded numerals: as `filter_exactly_drops_partial`, the `int` rewrite being the
 code's (`n.goInt? = some i`: the ROUNDED value) -/
-theorem filter_exactly_drops_round (t : Ty) (v : J) (h : (Martian.TypesR.filter t v).2 ≠ .fatal) :
+theorem filter_exactly_drops_round_partial (t : Ty) (v : J) (h : (Martian.TypesR.filter t v).2 ≠ .fatal) :
     DropsT (fun n i => n.goInt? = some i) t (Martian.TypesR.filter t v).1 v :=
   Martian.TypesR.filter_dropsT t v h
 
@@ -696,16 +700,64 @@ theorem filter_bytes_document (t : Ty) (hk : tyKeysOk t = true) (data out : Byte
       ∧ parseTop out = some (filterA t a).out.toJ :=
   filterBytes_parses t hk data out e h
 
-/-- FILTER BYTES = FILTER TREE (the link to sections 1–9): for every well-formed type and every
-input the grammar accepts, if `FilterJson` does not fail fatally, the bytes it returns parse to a
-tree that is – as a decode into Go maps / a Python dict sees it (`EqL`: per key the last member
-wins; member order and shadowed duplicates are invisible) – the rounded-numeral tree model's
-`filter` of the tree the input parses to.  So idempotence, only-drops, filter-valid-of-assignable
-… proved for `Martian.TypesR.filter` are statements about the bytes the real splicing produces. -/
-theorem filter_bytes_tree (t : Ty) (hwf : t.wf = true) (hk : tyKeysOk t = true) (data out : Bytes) (e : FErr)
+/-- FILTER BYTES = FILTER TREE, the VALUES (the link to sections 1–9; audit pass 2, C17-M1: this
+statement links the trees only – for the error class see `filter_bytes_error_class` next): for every
+well-formed type and every input the grammar accepts, if `FilterJson` does not fail fatally, the
+bytes it returns parse to a tree that is – as a decode into Go maps / a Python dict sees it (`EqL`:
+per key the last member wins; member ORDER and shadowed duplicates are invisible, so the
+"declaration order" / "same key order" clauses of `DropsT` do not pass through this link) – the
+rounded-numeral tree model's `filter` of the tree the input parses to.
+`_partial`: restricted to `e ≠ fatal` (on a fatal error the code returns bytes with
+`null` written for a missing member: `filter_fatal_adds_null`). -/
+theorem filter_bytes_tree_partial (t : Ty) (hwf : t.wf = true) (hk : tyKeysOk t = true) (data out : Bytes) (e : FErr)
     (h : filterBytes t data = some (out, e)) (hne : e ≠ .fatal) :
     ∃ j0 j, parseTop data = some j0 ∧ parseTop out = some j ∧ EqL j (Martian.TypesR.filter t j0).1 :=
   filterBytes_tree t hwf hk data out e h hne
+
+/-- FILTER BYTES = FILTER TREE, the ERROR CLASS (audit pass 2, C17-M1): on a document no object of
+which has two members with the same key (`noDupA`, decidable; it also says the annotated leaves are
+scalars, which is true of everything `parseTopA` returns) the error class `FilterJson` reports on
+the bytes IS the error class of the tree-level model on the parsed tree.  Without the hypothesis the
+two can differ – the tree-level model filters a shadowed duplicate under `map<T>`, the code only the
+members of the decoded Go map (`tmap_shadowed_member`); the byte-level model follows the code and is
+compared with it byte for byte AND error class for error class on every case. -/
+theorem filter_bytes_error_class (t : Ty) (hwf : t.wf = true) (data out : Bytes) (e : FErr)
+    (h : filterBytes t data = some (out, e)) :
+    ∃ a, parseTopA data = some a ∧ parseTop data = some a.toJ ∧
+      (noDupA a = true → e = (Martian.TypesR.filter t a.toJ).2) := by
+  unfold filterBytes at h
+  cases ha : parseTopA data with
+  | none => simp [ha] at h
+  | some a =>
+    simp only [ha, Option.map_some, Option.some.injEq, Prod.mk.injEq] at h
+    exact ⟨a, rfl, parseTopA_toJ data a ha, fun hn => h.2 ▸ filterA_err_agrees t hwf a hn⟩
+
+/-- … so the error-class hypotheses of sections 1–9 CAN be discharged from the bytes: e.g. "exactly
+what is dropped" (`filter_exactly_drops_round_partial`) for the tree the returned bytes denote.  `_partial`:
+duplicate-free input, no fatal error. -/
+theorem filter_bytes_exactly_drops_partial (t : Ty) (hwf : t.wf = true) (hk : tyKeysOk t = true)
+    (data out : Bytes) (e : FErr) (h : filterBytes t data = some (out, e)) (hne : e ≠ .fatal) :
+    ∃ a j, parseTopA data = some a ∧ parseTop out = some j ∧ (noDupA a = true →
+      EqL j (Martian.TypesR.filter t a.toJ).1 ∧
+      DropsT (fun n i => n.goInt? = some i) t (Martian.TypesR.filter t a.toJ).1 a.toJ) := by
+  obtain ⟨a, ha, _, hcls⟩ := filter_bytes_error_class t hwf data out e h
+  obtain ⟨a', ha', hout, hp⟩ := filterBytes_parses t hk data out e h
+  rw [ha] at ha'; cases ha'
+  have he : (filterA t a).err = e := by
+    unfold filterBytes at h
+    simp only [ha, Option.map_some, Option.some.injEq, Prod.mk.injEq] at h
+    exact h.2
+  refine ⟨a, _, ha, hp, fun hn => ⟨filterA_agrees t hwf a (by rw [he]; exact hne), ?_⟩⟩
+  exact Martian.TypesR.filter_dropsT t a.toJ (by rw [← hcls hn]; exact hne)
+
+/-- non-vacuity: `{"a":"x","a":1}` has a duplicated key (`noDupA` false) and there the classes do
+differ at `map<int>` (bytes: ok – the Go map holds `a ↦ 1`; tree model: fatal on the shadowed `"x"`);
+`{"a":1,"b":2}` has none -/
+example : (parseTopA [0x7B, 0x22, 0x61, 0x22, 0x3A, 0x22, 0x78, 0x22, 0x2C, 0x22, 0x61, 0x22, 0x3A, 0x31, 0x7D]).map noDupA = some false
+    ∧ (filterBytes (.tmap (.base .int)) [0x7B, 0x22, 0x61, 0x22, 0x3A, 0x22, 0x78, 0x22, 0x2C, 0x22, 0x61, 0x22, 0x3A, 0x31, 0x7D]).map (·.2) = some .ok
+    ∧ (Martian.TypesR.filter (.tmap (.base .int)) (.obj [(ka, .str kx), (ka, .num (.int 1))])).2 = .fatal
+    ∧ (parseTopA [0x7B, 0x22, 0x61, 0x22, 0x3A, 0x31, 0x2C, 0x22, 0x62, 0x22, 0x3A, 0x32, 0x7D]).map noDupA = some true := by
+  decide +kernel
 
 /-- `EqL` is reflexive, and it really forgets order: `{"a":1,"b":2}` and `{"b":2,"a":0,"a":1}` -/
 example : EqL (.obj [(ka, .num (.int 1)), (kb, .num (.int 2))])
